@@ -127,7 +127,7 @@ int main(int argc, char **argv) {
             size_t asz = v ? VS[v] : 0;
             int ok = 1, rv = 0; long n = 0; size_t sz = 0; void *p = NULL;
             unsigned char *outb = NULL; long outn = -1; int walkids[4096]; int nwalk = -1;
-            long lkb = vh_locks - vh_unlocks, ovb = vh_overlap_copies, bfb = vh_badfree;
+            long lkb = VH_LOCK_BALANCE(), ovb = vh_overlap_copies, bfb = vh_badfree;
             vh_watchdog(6);
             errno = 0;
             vh_call_begin();
@@ -220,7 +220,7 @@ int main(int argc, char **argv) {
             first = 1; cnt = 0;
             for (qlist_obj_t *o = L->last; o && cnt < 5000; o = o->prev, cnt++) { vh_bprintf(&b, "%s%d", first ? "" : ",", vid(o->data, o->size)); first = 0; }
             vh_bprintf(&b, "],\"max\":%zu,\"num\":%zu,\"dsum\":%zu,\"lkd\":%ld,\"ovl\":%ld,\"bf\":%ld}", L->max, L->num, L->datasum,
-                       (vh_locks - vh_unlocks) - lkb, vh_overlap_copies - ovb, vh_badfree - bfb);
+                       VH_LOCK_BALANCE() - lkb, vh_overlap_copies - ovb, vh_badfree - bfb);
             vh_bflush(&b);
             if (!inject || nfail == 0 || ok ) break;
         }
